@@ -256,6 +256,33 @@ pub fn structural_probes() -> Vec<Probe> {
         let twin = format!("{PRELUDE}\nfn need<'gc, T: Collect<'gc>>() {{}}\nfn probe<'gc>() {{ need::<'gc, Option<Gc<'gc, i32>>>(); need::<'gc, std::cell::Cell<i32>>(); need::<'gc, &'static i32>(); }}\nfn main() {{}}\n");
         v.push(Probe { name: format!("static_only_{}", v.len()), class: format!("static-only-Collect|{n}"), negative: neg, twin });
     }
+    // sink types (anything that is handed a `T` after it was created) must not be covariant in `T`:
+    // a covariant builder for `&'static X` could be completed with a branded `&'gc X`, which then sits
+    // in the heap without `&'gc X: Collect`
+    let sinks: [(&str, &str); 6] = [
+        ("GcBuilder", "gc_arena::GcBuilder<'gc, {T}>"),
+        ("GcBuilder-with-type-metadata", "gc_arena::GcBuilder<'gc, {T}, u64>"),
+        ("GcSliceBuilder", "gc_arena::GcSliceBuilder<'gc, {T}>"),
+        ("GcSliceWithHeaderBuilder-header", "gc_arena::GcSliceWithHeaderBuilder<'gc, {T}, u8>"),
+        ("GcSliceWithHeaderBuilder-element", "gc_arena::GcSliceWithHeaderBuilder<'gc, u8, {T}>"),
+        ("GcSliceWithHeaderSliceBuilder-element", "gc_arena::slice::GcSliceWithHeaderSliceBuilder<'gc, u8, {T}>"),
+    ];
+    for (n, ty) in sinks {
+        let long = ty.replace("{T}", "&'static std::cell::Cell<u8>");
+        let short = ty.replace("{T}", "&'a std::cell::Cell<u8>");
+        let neg = format!("{PRELUDE}\nfn shrink<'gc, 'a>(v: {long}) -> {short} {{ v }}\nfn main() {{}}\n");
+        let twin = format!("{PRELUDE}\nfn same<'gc, 'a>(v: {short}) -> {short} {{ v }}\nfn plain<'a>(v: &'static u8) -> &'a u8 {{ v }}\nfn main() {{}}\n");
+        v.push(Probe { name: format!("sink_variance_{}", v.len()), class: format!("covariant-sink|{n}"), negative: neg, twin });
+    }
+    // the whole escape as a program: a `&'gc String` from `Gc::as_ref`, parked in the root through a builder
+    {
+        let body = |bty: &str, val: &str, slot: &str| {
+            format!(
+                "{PRELUDE}\n#[derive(Collect)]\n#[collect(no_drop)]\nstruct Rt<'gc> {{ owner: Gc<'gc, RefLock<Option<Gc<'gc, String>>>>, stale: Gc<'gc, RefLock<Option<Gc<'gc, {slot}>>>> }}\nstatic FIXED: String = String::new();\nfn main() {{\n    let arena = Arena::<Rootable![Rt<'_>]>::new(|mc| Rt {{ owner: Gc::new(mc, RefLock::new(None)), stale: Gc::new(mc, RefLock::new(None)) }});\n    arena.mutate(|mc, root| {{\n        let s: Gc<String> = Gc::new(mc, String::from(\"payload\"));\n        *root.owner.borrow_mut(mc) = Some(s);\n        let b: gc_arena::GcBuilder<'_, &'static String> = gc_arena::GcBuilder::new();\n        let b2: gc_arena::GcBuilder<'_, {bty}> = b;\n        let g = b2.write(mc, {val});\n        *root.stale.borrow_mut(mc) = Some(g);\n    }});\n}}\n"
+            )
+        };
+        v.push(Probe { name: format!("sink_program_{}", v.len()), class: "covariant-sink|program: &'gc T parked in the root through a GcBuilder".into(), negative: body("&String", "s.as_ref()", "&'gc String"), twin: body("&'static String", "&FIXED", "&'static String") });
+    }
     // the static_collect! macro must not produce an impl usable with a branded (non-'static) type
     let sc: [(&str, &str, &str, &str); 3] = [
         ("generic arm naming the macro's own 'gc", "struct B<'a, T>(&'a T);\nstatic_collect!(<T> B<'gc, T>);", "B<'gc, std::cell::Cell<u8>>", "struct B<'a, T>(&'a T);\nstatic_collect!(<T> B<'static, T>);\nfn ok<'gc>() { need::<'gc, B<'static, u8>>(); }"),
